@@ -9,7 +9,7 @@ export GOFLAGS=-mod=mod GOPROXY=off GOSUMDB=off GOTOOLCHAIN=local
 out=/verif/seeded/$name; mkdir -p $out
 cd $wt || exit 2
 # normalise: worktree = HEAD + patch, no demo
-git stash -q 2>/dev/null; git checkout -q -- . ; git clean -fdq
+git checkout -q -- . ; git clean -fdq
 git apply $sd/patch.diff || { echo "patch does not apply"; exit 2; }
 suite=$(go build ./... 2>&1 && go test -vet=off -count=1 ./... 2>&1 | grep -c "^FAIL\|^--- FAIL")
 cp $sd/demo_test.go $ddir/zz_seed_demo_test.go
